@@ -234,6 +234,31 @@ def check(case):
             require(set(out.tolist()) <= set(np.asarray(m.classes_).tolist()), "predict:label-not-in-classes", "%r vs %r" % (sorted(set(out.tolist())), m.classes_), facts)
             require(sorted(np.asarray(m.classes_).tolist()) == sorted(set(y.tolist())), "classes_", "%r" % (m.classes_,), facts)
 
+    # ---- two callers at once: one fitted model serves two batches from two threads (a web service does this); each caller gets the
+    # answers of its own batch
+    if case.get("two_callers") and len(Q) >= 2:
+        import threading
+        meth = "predict"
+        QA, QB = Q, Q[::-1].copy()
+        expA, expB = np.asarray(getattr(m, meth)(QA)), np.asarray(getattr(m, meth)(QB))
+        wrong, errors = [], []
+        barrier = threading.Barrier(2)
+
+        def caller(batch, expected, tag):
+            try:
+                barrier.wait(timeout=10)
+                for _ in range(12):
+                    got = np.asarray(getattr(m, meth)(batch))
+                    if got.shape != expected.shape or not np.array_equal(got, expected):
+                        wrong.append(tag)
+                        return
+            except Exception as e:  # noqa: BLE001 - reported below, from the main thread
+                errors.append("%s: %s" % (type(e).__name__, str(e)[:120]))
+        ta = threading.Thread(target=caller, args=(QA, expA, "A"))
+        tb = threading.Thread(target=caller, args=(QB, expB, "B"))
+        ta.start(); tb.start(); ta.join(); tb.join()
+        require(not errors, "two-callers:raises", "predict raised when two threads called the same fitted model: %s" % errors[:1], facts)
+        require(not wrong, "two-callers:wrong-answers", "caller %s got the answers of another batch while two threads called predict on the same fitted model" % wrong[:1], facts)
     # ---- n_jobs differential
     if case["n_jobs"] not in (None, 1):
         np.random.seed(case["seed"])
@@ -247,7 +272,7 @@ def check(case):
     labels = ["clf" if classifier else "reg", "binner=" + case["binner"]["kind"], "est=" + case["estimator"]["kind"],
               "buckets=1" if nb == 1 else ("buckets<=4" if nb <= 4 else "buckets>4"), "unseen-bucket" if unseen else "all-seen",
               "weights" if w is not None else "no-weights", "n_jobs=%s" % case["n_jobs"], "missing-class" if missing_class else "no-missing-class",
-              "train:" + facts["xkind"], "query:" + facts["qkind"], "y:" + facts["ykind"], "zero-weights" if (w is not None and (w == 0).any()) else "no-zero-weight"]
+              "train:" + facts["xkind"], "query:" + facts["qkind"], "y:" + facts["ykind"], "two-callers" if case.get("two_callers") else "one-caller", "zero-weights" if (w is not None and (w == 0).any()) else "no-zero-weight"]
     return Outcome(labels, nb >= 2 and (unseen or missing_class or w is not None or case["n_jobs"] not in (None, 1)))
 
 
@@ -284,6 +309,7 @@ def _cases(draw, tier="quick"):
                 binner=binner, estimator=est, n_jobs=draw(st.sampled_from([None, 1, 2, 2, 4])), random_state=draw(st.one_of(st.none(), st.integers(0, 99))),
                 seed=draw(st.integers(0, 2**31 - 2)), Q=Q, xkind=draw(st.sampled_from(["array", "array", "frame"])),
                 qkind=draw(st.sampled_from(["float64", "float64", "float32", "int64", "frame"])),
+                two_callers=draw(st.integers(0, 3)) == 0,
                 ykind=draw(st.sampled_from(["array", "array", "series"])), zero_w=draw(st.lists(st.integers(0, 49), max_size=4)) if draw(st.integers(0, 3)) == 0 else [], index_perm=draw(st.lists(st.integers(0, 10**6), min_size=50, max_size=50)))
 
 
